@@ -437,3 +437,69 @@ theorem first_local : ∃ c, newVariable true [120] false [rootScope] = some (c,
   simp [h97, h0]
 
 end GV.Proofs.Names
+
+namespace GV.Proofs.Names
+open Std GV.Names
+
+theorem shortName_inj' (pk : Bool) (i j : Nat) (h : shortName pk i = shortName pk j) : i = j := by
+  have hi := decode_shortChars (if pk then 65 else 97) i
+  have hj := decode_shortChars (if pk then 65 else 97) j
+  unfold shortName at h
+  rw [h] at hi
+  omega
+
+theorem pigeon (pk : Bool) : ∀ (n : Nat) (m : VarMap), (∀ k, k < n → shortName pk k ∈ m) → n ≤ m.size := by
+  intro n
+  induction n with
+  | zero => intro m _; exact Nat.zero_le _
+  | succ n ih =>
+    intro m h
+    have hkey : shortName pk n ∈ m := h n (Nat.lt_succ_self n)
+    have h' : ∀ k, k < n → shortName pk k ∈ m.erase (shortName pk n) := by
+      intro k hk
+      rw [HashMap.mem_erase]
+      refine ⟨?_, h k (Nat.lt_succ_of_lt hk)⟩
+      have : shortName pk n ≠ shortName pk k := fun e => by
+        have := shortName_inj' pk n k e; omega
+      simpa using this
+    have h1 := ih (m.erase (shortName pk n)) h'
+    have h2 : (m.erase (shortName pk n)).size = m.size - 1 := by
+      rw [HashMap.size_erase]; simp [hkey]
+    have h3 : m.size ≠ 0 := by
+      intro h0
+      have : m.isEmpty = true := by rw [HashMap.isEmpty_eq_size_eq_zero]; simp [h0]
+      have h4 : m.isEmpty = false := HashMap.isEmpty_eq_false_iff_exists_mem.mpr ⟨_, hkey⟩
+      rw [this] at h4; cases h4
+    omega
+
+theorem firstFree_none (pk : Bool) (m : VarMap) : ∀ (fuel i : Nat), firstFree pk m fuel i = none →
+    ∀ k, i ≤ k → k < i + fuel → m.cnt (shortName pk k) ≠ 0 := by
+  intro fuel
+  induction fuel with
+  | zero => intro i _ k h1 h2; omega
+  | succ f ih =>
+    intro i h k h1 h2
+    rw [firstFree] at h
+    split at h
+    · simp at h
+    · rename_i hne
+      by_cases hk : k = i
+      · subst hk; exact hne
+      · exact ih (i + 1) h k (by omega) (by omega)
+
+theorem firstFree_total' (pk : Bool) (m : VarMap) : ∃ nm, firstFree pk m (m.size + 1) 0 = some nm := by
+  cases h : firstFree pk m (m.size + 1) 0 with
+  | some nm => exact ⟨nm, rfl⟩
+  | none =>
+    exfalso
+    have hall := firstFree_none pk m _ _ h
+    have hmem : ∀ k, k < m.size + 1 → shortName pk k ∈ m := by
+      intro k hk
+      have := hall k (Nat.zero_le _) (by omega)
+      apply Classical.byContradiction
+      intro hn
+      exact this (by simp [VarMap.cnt, HashMap.getD_eq_fallback hn])
+    have := pigeon pk (m.size + 1) m hmem
+    omega
+
+end GV.Proofs.Names
